@@ -81,8 +81,8 @@ func FieldFed(p *core.Prog, r *core.Report) {
 		keys = append(keys, k)
 	}
 	sort.Slice(keys, func(a, b int) bool {
-		if keys[a].t.Obj().Name() != keys[b].t.Obj().Name() {
-			return keys[a].t.Obj().Name() < keys[b].t.Obj().Name()
+		if core.KnownTypeName(keys[a].t) != core.KnownTypeName(keys[b].t) {
+			return core.KnownTypeName(keys[a].t) < core.KnownTypeName(keys[b].t)
 		}
 		return keys[a].i < keys[b].i
 	})
@@ -105,7 +105,7 @@ func FieldFed(p *core.Prog, r *core.Report) {
 			continue
 		}
 		n++
-		key := k.t.Obj().Name() + "." + fld.Name()
+		key := core.KnownTypeName(k.t) + "." + fld.Name()
 		if fed[k] {
 			r.OK(rule, key, p.Pos(fld.Pos()), "read and given a value somewhere")
 		} else {
